@@ -12,8 +12,9 @@ CONSTANTS
   PersistMkdir = TRUE
   LoaderExact = TRUE
   RefreshTemp = "leave"
-  Faults = {}
+  Faults = {"vanish", "write"}
   Cleanup = "temp"
-INIT InitR
-NEXT NextR
+SPECIFICATION SpecR
+INVARIANTS TypeOKF OneTempF DiskIsASnapshot FaultConverged
+PROPERTIES PreviousFileKept NeverBackwards Terminates
 CHECK_DEADLOCK FALSE
